@@ -77,6 +77,9 @@ class Ctx:
         self.unmodelled = collections.Counter()
         self.cfgs = {}
         self.use_contracts = True
+        self.frontend = False
+        self.keep_root_paths = False     # post-condition runs on small entry functions: one exit state per path
+        self.lib_calls = []
         self._fnthr = {}
         self.depth = 0
         self.thresholds = self._thresholds()
@@ -1374,7 +1377,7 @@ class Interp:
                 edge.pop((b, w), None)
             edge.pop((b, "ret"), None)
             return
-        if len(states) > MAX_BLOCK_STATES:
+        if len(states) > MAX_BLOCK_STATES and not (self.ctx.keep_root_paths and fr == getattr(self.ctx, "root_frame", None)):
             states = self.reduce_states(states, fr, MAX_BLOCK_STATES, inst)
         blk = inst["blocks"][b]
         live = []
@@ -1560,6 +1563,9 @@ class Interp:
                 out.extend((t["t"], s2) for s2 in self.do_drop(s, fr, inst, t))
             return out
         if k == "call":
+            if fr == getattr(self.ctx, "root_frame", None):
+                for s in states:
+                    s.ghost[("called",)] = const_int(1)      # this path of the entry function has executed a call
             if len(states) > 2 and self.is_heavy(t.get("callee")):
                 states = self.reduce_states(states, fr, 2, inst)
             for s in states:
@@ -1731,6 +1737,11 @@ class Interp:
             ctx.oblige("panic", False, inst, span, "panic entry point `%s` is reachable" % path)
             ctx.paths_ended_in_panic += 1
             return []
+        if ctx.frontend and callee["dpath"] == "minimal_lexical::parse::parse_float":
+            # front-end analysis: the library is summarised (C04/C08 cover it); remember what it was called with
+            ctx.lib_calls.append((st.copy(), args, inst, span))
+            self.write_place(st, fr, inst, t["dest"], new_top(), span)
+            return [st] if t["t"] is not None else []
         ctx.callstack.append((inst, span))
         try:
             res = None
